@@ -497,9 +497,11 @@ func worldC16(w *World) {
 				if !d.closer.Closed {
 					continue
 				}
-				if d.other.Closed && d.other.ClosedAt <= d.closer.ClosedAt {
-					continue // the other side had closed first
+				if d.other.Closed && !d.other.Graceful && d.other.ClosedAt <= d.closer.ClosedAt {
+					continue // the other side had torn its connection down first
 				}
+				// (a peer that only ended its own sending direction earlier still
+				// reads, and must see the end of the opposite direction)
 				w.Probe("one_side_closed_first")
 				if !d.other.SawEnd {
 					w.Violation("close-propagation", "after one TCP peer closed, the other never observed end-of-stream | %s side still open %v after the close at %v (connection %d)", d.name, budget, d.closer.ClosedAt, bc.I)
@@ -512,7 +514,10 @@ func worldC16(w *World) {
 				// before its end-of-stream. A peer that closes while inbound data is still
 				// unread resets the connection (as TCP does) and a reset discards data in
 				// flight, so completeness is only required when the stream ended cleanly.
-				if d.other.ReadErr != "" || !d.closer.Graceful {
+				if !d.closer.Graceful || (d.other.Closed && !d.other.Graceful) {
+					continue
+				}
+				if d.other.ReadErr != "" && !strings.Contains(d.other.ReadErr, "reset") {
 					continue
 				}
 				w.Probe("graceful_close_complete_data")
@@ -520,7 +525,7 @@ func worldC16(w *World) {
 					w.Probe("graceful_close_slow_reader_bulk_data")
 				}
 				if !bytes.Equal(d.other.Got, d.sent) {
-					w.Violation("close-propagation", "the surviving peer observed end-of-stream without having received everything sent before the close | %s got %d of %d bytes", d.name, len(d.other.Got), len(d.sent))
+					w.Violation("close-propagation", "the surviving peer observed end-of-stream without having received everything sent before the close | %s got %d of %d bytes (its stream ended with %q)", d.name, len(d.other.Got), len(d.sent), d.other.ReadErr)
 				}
 			}
 		}
